@@ -7,11 +7,14 @@ import itertools
 
 from mc import refasm as R
 from mc.histories import run_program
+from mc.judges import judge_expect
 from mc.probe_isa import probe_isa
+from mc.world import Case
 
 ID = 'C04'
 LEVEL = 'model_checking'
 
+FORMATS = ('hex', 'listing', 'intel_hex', 'minhex')
 ZONES = [{'name': 'z1', 'start': 2, 'end': 9}, {'name': 'z2', 'start': 4, 'end': 12}]
 
 
@@ -84,14 +87,15 @@ def meta(tier):
         'rule': 'every ordered pair (thorough: and triple over starts 0..6; quick: triples over starts 0..3) of byte-producing lines '
                 'drawn from start x kind/length options, each placed by its own origin; expected rejection iff two lines of '
                 'length >= 1 share an address, otherwise the image is the union; non-trivial = ranges touch or overlap, or a '
-                'zero-length line lies inside another range; states = distinct sets of occupied (address, owner) cells',
+                'zero-length line lies inside another range; every pair (and every touching triple) is run a second time with '
+                '--no-binary and one of the four pretty-print formats, judged on acceptance only; states = distinct sets of occupied (address, owner) cells',
         'bounds': {'starts': 'pairs 0..6; triples 0..3 (quick) / 0..6 (thorough)',
                    'kinds': ['.byte x1..3', '.fill 0|1|3', '.zerountil (len 2, len 0)', 'nop', 'ldi', 'jmp',
                              '.org k "z1" (z1=2..9)', '.org k "z2" (z2=4..12, overlapping z1)', 'line in an included file',
                              'predefined data block'],
                    'orders': 'all permutations (ordered tuples)'},
         'assumptions': ['pairs involving a muted line are not generated (the statement does not say whether muted bytes occupy)'],
-        'floors': {'evaluations': 1000, 'nontrivial': 100, 'statuses': ['OK', 'REJECT'], 'clauses': ['disjoint-accepted', 'overlap-rejected']},
+        'floors': {'evaluations': 1000, 'nontrivial': 100, 'statuses': ['OK', 'REJECT'], 'clauses': ['disjoint-accepted', 'overlap-rejected', 'no-binary-overlap-rejected', 'no-binary-disjoint-accepted']},
         'nshards': 64,
     }
 
@@ -139,6 +143,19 @@ def shard(acc, tier, idx, n):
                 acc, params, isa_cache[key], files,
                 clause=lambda r: 'overlap-rejected' if r.status == 'REJECT' else 'disjoint-accepted',
                 nontrivial=(lines if touch else None), sample=(ctr % 997 == 0))
+            if ref.status != 'DC' and (k == 2 or touch):
+                # the same program with --no-binary and a pretty print only: acceptance must not depend on the outputs requested
+                fmt = FORMATS[ctr % len(FORMATS)]
+                case2 = Case(isa_cache[key], R.render_files(files), binary=False, pretty=fmt)
+                out2 = acc.run(case2)
+                acc.transition()
+                spec2 = {'expect': ref.status, 'status_only': True, 'image_hex': None, 'why': getattr(ref, 'reason', ''),
+                         'mode': f'--no-binary -p -t {fmt}'}
+                msg2 = judge_expect(spec2, [out2])
+                if msg2:
+                    acc.violation([case2], spec2, f'[--no-binary -t {fmt}] {msg2}', [out2])
+                acc.judge(clause='no-binary-overlap-rejected' if ref.status == 'REJECT' else 'no-binary-disjoint-accepted',
+                          nontrivial_key=(lines, fmt) if touch else None)
             if ref.status != 'DC':
                 acc.state(tuple(sorted((a, 1) for a in ref.mem)) if ref.status == 'OK' else ('REJECT', tuple(sorted((s, nn) for _, s, nn in lines))))
 
